@@ -14,6 +14,8 @@ FILES = {"a.txt": "banana band 50%an% an\"q an\\y", "b.txt": "an apple\nand a na
          "banana.txt": "an an", "ana.txt": "nan"}
 PROGS = {"find": "find all 'an' maybe in '%', '\"', '\\\\', '>'", "replace": "replace all 'an' with '<%' value '%d>'", "delete": "replace all 'an' with ''", "failing": "find all (",
          # several commands over several files: the result list is ordered command by command, within a command file by file
+         # exactly one match in all, and none at all (the counts a message is worded for)
+         "single": "find top 1 'ban'", "singlerepl": "replace top 1 'ban' with 'BAN'", "zero": "find all 'qqq'",
          "several": "find all 'ban' find all ('an' = w) maybe 'd' replace all 'nd' with 'ND' find all at least 1 (('a' or 'n') = c) named cs"}
 FILESETS = {"one": "a.txt", "several": "*.txt", "glob": "*", "none": "*.nothing", "overlap": "*ana.txt"}
 
@@ -84,6 +86,8 @@ def run(ctx):
         # the multi-command program over several files in every mode, on standard output and into both files (the order of the result list is part of the result)
         fixed = [(True, False, True, js, False, jf, jf, mode, False, "several", fs) for mode in ("unset", "NEW", "NOTHING", "OVERWRITE") for fs in ("several", "glob", "overlap")
                  for js, jf in ((True, False), (False, True))]
+        fixed += [(True, False, True, js, fjs, False, False, mode, False, prog, "one") for prog in ("single", "singlerepl", "zero") for mode in ("unset", "NOTHING")
+                  for js, fjs in ((True, False), (False, True), (False, False))]
         combos = rng.sample(good, 150) + fixed + corners + rng.sample(bad, 110)
     # decisions of the proved model
     def b(x):
